@@ -199,6 +199,79 @@ MUTS = [
   "                    self.get_account_mut(address).newly_created(info.clone(), changed_storage);\n                self.storage.remove(&address);",
   "                    self.get_account_mut(address).newly_created(info.clone(), changed_storage);",
   "creating an account does not clear its cached storage"),
+ # ---- third batch ----------------------------------------------------------------------------
+ ("o49-seq-finalize-only-on-ok", "C03", "src/scheduler/fallback.rs",
+  "                let state = evm.finalize();\n                output.map(|output| {\n                    let result = output.into_immediate_result();",
+  "                output.map(|output| {\n                    let state = evm.finalize();\n                    let result = output.into_immediate_result();",
+  "the sequential path finalizes the journal only after a successful transaction"),
+ ("o50-set-balance-allowed-in-static", "C11", "src/precompile.rs",
+  "    ) -> Result<StateLoad<()>, ParallelPrecompileError> {\n        self.ensure_mutable()?;",
+  "    ) -> Result<StateLoad<()>, ParallelPrecompileError> {\n        self.ensure_healthy()?;",
+  "set_balance through the facade is not refused in a static context"),
+ ("o51-precompile-result-cached", "C11", "src/precompile.rs",
+  "        DynPrecompile::new_stateful(id, move |input| {",
+  "        DynPrecompile::new(id, move |input| {",
+  "the adapter no longer disables the input-keyed result cache"),
+ ("o52-reserve-create-nonce-not-restored", "C13", "src/delegated_safety/handler.rs",
+  "            if recreate_sender_nonce {\n                reapply_create_sender_nonce::<EVM, ERROR>(evm)?;\n            }\n",
+  "            let _ = recreate_sender_nonce;\n",
+  "a reserve violation in a top-level CREATE transaction loses the sender's nonce bump"),
+ ("o53-reserve-auth-refund-dropped", "C13", "src/delegated_safety/handler.rs",
+  "            // apply it again using this synthetic top-level REVERT result.\n            self.refund(evm, exec_result, eip7702_gas_refund);\n",
+  "            // apply it again using this synthetic top-level REVERT result.\n",
+  "a reserve violation drops the EIP-7702 authorisation refund"),
+ ("o54-reserve-boundary-inclusive", "C13", "src/delegated_safety/handler.rs",
+  "            if candidate.final_balance < required {",
+  "            if candidate.final_balance <= required {",
+  "leaving exactly the reserve counts as a violation"),
+ ("o55-guard-tests-caller", "C12", "src/delegated_safety/instructions.rs",
+  "    let recipient = context.interpreter.input.target_address();",
+  "    let recipient = context.interpreter.input.caller_address();",
+  "the delegated-create guard looks at the frame's caller instead of its target"),
+ ("o56-reserve-index-first-only", "C13", "src/delegated_safety/reserve.rs",
+  "                index.entry(tx.caller).or_insert_with(Vec::new).push(txid);",
+  "                let list = index.entry(tx.caller).or_insert_with(Vec::new);\n                if list.len() < 2 {\n                    list.push(txid);\n                }",
+  "only the first two transactions of a sender enter the reserve index"),
+ ("o57-zero-reward-deferred-skip", "C07", "src/beneficiary/reward.rs",
+  "        if reward.is_zero() || evm.ctx_ref().journal().evm_state().contains_key(&beneficiary) {",
+  "        if reward.is_zero() {\n            return Ok(())\n        }\n        if evm.ctx_ref().journal().evm_state().contains_key(&beneficiary) {",
+  "a zero reward no longer touches the beneficiary"),
+ ("o58-reward-pre-london-price", "C07", "src/beneficiary/reward.rs",
+  "        let beneficiary_gas_price = if spec.is_enabled_in(SpecId::LONDON) {",
+  "        let beneficiary_gas_price = if spec.is_enabled_in(SpecId::BERLIN) {",
+  "the base fee is subtracted from the reward price one fork too early"),
+ ("o59-history-invalidate-any-incarnation", "C07", "src/beneficiary/history.rs",
+  "        if state.incarnation != incarnation {\n            return false;\n        }\n        if matches!(&state.value, EntryValue::Exact(_)) {",
+  "        if state.incarnation < incarnation {\n            return false;\n        }\n        if matches!(&state.value, EntryValue::Exact(_)) {",
+  "a delayed invalidation of an older incarnation wipes the newer incarnation's exact effect"),
+ ("o60-history-record-same-incarnation", "C07", "src/beneficiary/history.rs",
+  "        if incarnation <= state.incarnation {\n            return false;\n        }",
+  "        if incarnation < state.incarnation {\n            return false;\n        }",
+  "a publication for the same incarnation may replace an invalidated entry"),
+ ("o61-created-empty-is-deleted", "C08", "src/account.rs",
+  "        } else if account.is_created() {\n            Self::Created(&account.info)\n        } else if account.is_empty() {\n            Self::Deleted",
+  "        } else if account.is_empty() {\n            Self::Deleted\n        } else if account.is_created() {\n            Self::Created(&account.info)",
+  "a created-but-empty account is classified as deleted in multi-version memory"),
+ ("o62-commit-error-keeps-going", "C04", "src/scheduler.rs",
+  "                        self.abort(AbortReason::CommitError(error.clone()));\n                        return CommitLoopResult { committed: output, error: Some(error) };",
+  "                        self.abort(AbortReason::CommitError(error.clone()));\n                        return CommitLoopResult { committed: output, error: None };",
+  "a database error during ordered commit is not returned by the commit thread"),
+ ("o63-fatal-reported-at-committed-idx", "C04", "src/scheduler/control.rs",
+  "                    if let Some(error) = error {\n                        return Err(GrevmError { txid: *txid, error });",
+  "                    if let Some(error) = error {\n                        return Err(GrevmError { txid: committed.index().min(*txid), error });",
+  "the fatal error's transaction index is clamped to the committed boundary (equal in all correct runs)"),
+ ("o64-storage-read-backing-before-reset", "C08", "src/incarnation_db.rs",
+  "        if reset_txid.is_some() {\n            return Ok(U256::ZERO);\n        }\n        self.backing_db.storage_ref(address, index)",
+  "        let backing = self.backing_db.storage_ref(address, index)?;\n        if reset_txid.is_some() {\n            return Ok(U256::ZERO);\n        }\n        Ok(backing)",
+  "a slot masked by a reset marker still consults (and may fail on) the backing store"),
+ ("o65-basic-snapshot-missing-for-mv", "C09", "src/incarnation_db.rs",
+  "                result = account.clone();\n                read_account = result.as_ref().map(AccountBasic::from);\n                if entry.estimate {",
+  "                result = account.clone();\n                if entry.estimate {",
+  "an account read from multi-version memory leaves no snapshot, so unchanged nonce/balance/code are republished"),
+ ("o66-block-hash-uncached-error-sticky", "C04", "src/parallel_state.rs",
+  "            Entry::Vacant(entry) => {\n                Ok(*entry.insert(self.with_metrics(|| self.database.block_hash_ref(number))?))\n            }",
+  "            Entry::Vacant(entry) => {\n                let hash = self.with_metrics(|| self.database.block_hash_ref(number)).unwrap_or_default();\n                Ok(*entry.insert(hash))\n            }",
+  "a failing block-hash lookup is served (and cached) as the zero hash"),
 ]
 
 def apply(m):
@@ -231,6 +304,8 @@ def main():
     only = set(sys.argv[2:])
     out_path = "/verif/seeded/own_matrix.json"
     results = json.load(open(out_path)) if os.path.exists(out_path) else {}
+    if LAB:
+        subprocess.check_call(["/verif/tools/lab.sh", "sync", LAB])
     for m in MUTS:
         mid, prop = m[0], m[1]
         if only and mid not in only: continue
